@@ -2,10 +2,12 @@
 # usage: tools/seed_run.sh <name> <check ids...>   — apply seeded/<name>/patch.diff to /repo, run checks (quick), restore
 NAME=$1; shift
 cd /verif
+rm -rf /var/tmp/lpverif/evidence.keep && cp -r /verif/evidence /var/tmp/lpverif/evidence.keep   # evidence of the unchanged tree is what stays committed
 git -C /repo apply --whitespace=nowarn /verif/seeded/$NAME/patch.diff || { echo "PATCH DOES NOT APPLY"; exit 3; }
 for c in "$@"; do
   ./check $c --tier quick > seeded/$NAME/check_$c.log 2>&1; rc=$?
   echo "$NAME $c exit=$rc $(grep -h 'VIOLATION' seeded/$NAME/check_$c.log | head -1)"
 done
 git -C /repo checkout -- .
+rm -rf /verif/evidence && mv /var/tmp/lpverif/evidence.keep /verif/evidence
 (cd /verif/tools && python3 -c 'import extract; extract.regenerate()')   # Generated/ back to the unchanged tree
